@@ -565,7 +565,7 @@ def bias_consumers(chk: Check, rule: str, modules: List[str]) -> None:
                 chk.ob(rule, "%s:unbias(%s)" % (f.qualname, what), ok, f.loc(a),
                        "%s uses .%s of a closed-interval encoding without subtracting the +1 bias "
                        "(%s)" % (f.qualname, what, unparse(par)[:40] if par is not None else "?"), 2)
-    chk.floor(rule, "consumers of biased interval ends", n, 3)
+    chk.floor(rule, "consumers of biased interval ends", n, 2)
 
 
 def truthiness_safe(chk: Check, rule: str) -> None:
